@@ -104,6 +104,7 @@ Fixpoint asp (fuel : nat) (g : wgraph) (d : dvec) (s t : nat) : list (list nat) 
   end.
 
 Definition positive_b (g : wgraph) : bool := forallb (fun e => Z.ltb 0 (snd e)) (entries g).
+Definition nonneg_b (g : wgraph) : bool := forallb (fun e => Z.leb 0 (snd e)) (entries g).
 
 Fixpoint list_eqb (a b : list nat) : bool :=
   match a, b with
